@@ -126,7 +126,7 @@ Lemma step_recv i s o :
   | _ => snd (snd (sys_step i s o)) = []
   end.
 Proof.
-  destruct o as [c id|c id|h|h|c|n| |ns| |]; cbn [sys_step]; try exact I; try reflexivity.
+  destruct o as [c id|c id|h|h|c|n| |ns| | |]; cbn [sys_step]; try exact I; try reflexivity.
   - destruct (enable _ _ _) as [m s']. reflexivity.
   - destruct (disable _ _) as [m s']. reflexivity.
 Qed.
@@ -145,7 +145,7 @@ Proof.
   destruct (sys_step i s o) as [s' f] eqn:Es. cbn [fst snd] in HR', HC, HS, HV.
   cbn [T_from h_obs h_tasks]. pose proof HR' as [HI' HL'].
   rewrite ?o_cron_observe.
-  destruct o as [c id|c id|h|h|c|n| |ns| |].
+  destruct o as [c id|c id|h|h|c|n| |ns| | |].
   - cbn [hm_fired]. rewrite HV, hm_tasks_nil. cbn [is_nil andb]. apply IH; [exact HR' | now rewrite HC].
   - cbn [hm_fired]. rewrite HV, hm_tasks_nil. cbn [is_nil andb]. apply IH; [exact HR' | now rewrite HC].
   - cbn [hm_fired]. rewrite HV, hm_tasks_nil. cbn [is_nil andb]. apply IH; [exact HR' | now rewrite HC].
@@ -184,6 +184,8 @@ Proof.
     + cbn [andb]. apply IH; [exact HR'|]. cbn [with_ch s_ch]. subst k. constructor.
     + eapply Permutation_trans; [exact HP | apply Permutation_sym, Hr].
   - (* OStop *)
+    cbn [hm_fired]. rewrite HV, hm_tasks_nil. cbn [is_nil andb]. apply IH; [exact HR' | now rewrite HC].
+  - (* OSmStart *)
     cbn [hm_fired]. rewrite HV, hm_tasks_nil. cbn [is_nil andb]. apply IH; [exact HR' | now rewrite HC].
 Qed.
 
